@@ -236,6 +236,41 @@ theorem splitCount_model (s p : Bytes) (count : Val) (n : Int) (h : intArg count
     | nil => exact absurd rfl h2
     | cons a s => cases p <;> simp [*]
 
+/-! ### `split` without a count -/
+
+/-- `ret 0` the empty result; `reach 0` is `make([]any, n+1)`: `n` is the first frame variable, or — declared inside the
+branch for the empty separator — the value appended after the frame -/
+def viewSplit0 : Exit → Option (Option Int)
+  | .ret 0 _ => some none
+  | .reach 0 [_, _, n] => some (some n)
+  | .reach 0 [n, _] => some (some n)
+  | _ => none
+
+/-- [C02, C11, C09] **`split(s, sep)` as the Go text has it**: the empty subject gives `[]`; otherwise `make([]any, n+1)` is
+reached with `n` the number of code points minus one for the empty separator (one element per code point) and the
+number of occurrences of the separator otherwise -/
+theorem split_tie (ls lp rc cnt : Int) (hrc : 0 ≤ rc) (hrc' : rc ≤ 2 ^ 62) :
+    viewSplit0 (T2.split ls lp rc cnt) = some (if ls = 0 then none else if lp = 0 then some (rc - 1) else some cnt) := by
+  unfold T2.split
+  dsimp only
+  simp only [apply_ite viewSplit0]
+  simp only [viewSplit0]
+  repeat' split
+  transl2_close
+
+/-- [C03, C09] `make([]any, n+1)` in the Go text of `split` is reached with `n ≥ 0` (a non-empty subject has at least one
+code point; a count of occurrences is not negative): the allocation cannot panic and has one cell per element of the
+result -/
+theorem go_split0_make_safe (ls lp rc cnt n : Int) (hrc : 1 ≤ rc) (hrc' : rc ≤ 2 ^ 62) (hc : 0 ≤ cnt)
+    (h : viewSplit0 (T2.split ls lp rc cnt) = some (some n)) : 0 ≤ n ∧ (n = rc - 1 ∨ n = cnt) := by
+  rw [split_tie ls lp rc cnt (by omega) hrc'] at h
+  repeat' split at h
+  all_goals simp at h
+  all_goals omega
+
+example : viewSplit0 (T2.split 5 0 3 0) = some (some 2) ∧ viewSplit0 (T2.split 5 1 3 4) = some (some 4)
+    ∧ viewSplit0 (T2.split 0 1 0 0) = some none := by decide
+
 /-! ### `replace` with a count -/
 
 /-- [C02] **`replace(s, old, new, n)` as the Go text has it**: a negative count is invalid-value, every other 64-bit
